@@ -130,13 +130,62 @@ pub struct Finding {
     pub count: u64,
 }
 
+/// Append-only store of 64-bit hashes in 1 Mi-entry chunks (no giant reallocation).
+#[derive(Default)]
+pub struct HashStore {
+    chunks: Vec<Vec<u64>>,
+}
+impl HashStore {
+    const CHUNK: usize = 1 << 20;
+    pub fn push(&mut self, h: u64) {
+        match self.chunks.last_mut() {
+            Some(c) if c.len() < Self::CHUNK => c.push(h),
+            _ => {
+                let mut c = Vec::with_capacity(Self::CHUNK);
+                c.push(h);
+                self.chunks.push(c);
+            }
+        }
+    }
+    pub fn len(&self) -> u64 {
+        self.chunks.iter().map(|c| c.len() as u64).sum()
+    }
+}
+
+/// Exact number of distinct values over several stores: 256-way partition
+/// by the top byte, each bucket sorted and deduplicated on its own.
+pub fn count_distinct(stores: &[&HashStore]) -> u64 {
+    let total: u64 = stores.iter().map(|s| s.len()).sum();
+    if total == 0 {
+        return 0;
+    }
+    let mut distinct = 0u64;
+    let mut bucket: Vec<u64> = Vec::with_capacity((total / 200) as usize + 16);
+    for b in 0..256u64 {
+        bucket.clear();
+        for s in stores {
+            for c in &s.chunks {
+                bucket.extend(c.iter().copied().filter(|h| h >> 56 == b));
+            }
+        }
+        bucket.sort_unstable();
+        bucket.dedup();
+        distinct += bucket.len() as u64;
+    }
+    distinct
+}
+
 /// Per-thread context.
 pub struct Ctx {
     pub evals: u64,
     pub lib_calls: u64,
     pub traces: u64,
-    nontrivial: Vec<u64>,
-    all_hashes: Vec<u64>,
+    nontrivial: HashStore,
+    all_hashes: HashStore,
+    /// distinct / non-trivial counts established structurally by the check
+    /// itself (cases that are distinct by construction), added to the hashed counts
+    pub structural_distinct: u64,
+    pub structural_nontrivial: u64,
     outcomes: HashSet<u64>,
     pub findings: BTreeMap<String, Finding>,
     pub samples: Vec<Value>,
@@ -151,8 +200,10 @@ impl Ctx {
             evals: 0,
             lib_calls: 0,
             traces: 0,
-            nontrivial: vec![],
-            all_hashes: vec![],
+            nontrivial: HashStore::default(),
+            all_hashes: HashStore::default(),
+            structural_distinct: 0,
+            structural_nontrivial: 0,
             outcomes: HashSet::new(),
             findings: BTreeMap::new(),
             samples: vec![],
@@ -229,15 +280,18 @@ pub fn merge(ctxs: Vec<Ctx>) -> Agg {
         extra: BTreeMap::new(),
         hang: None,
     };
-    let mut nt: Vec<u64> = vec![];
-    let mut all: Vec<u64> = vec![];
     let mut out: HashSet<u64> = HashSet::new();
+    let mut nts: Vec<HashStore> = vec![];
+    let mut alls: Vec<HashStore> = vec![];
+    let (mut sd, mut sn) = (0u64, 0u64);
     for c in ctxs {
         a.evals += c.evals;
         a.lib_calls += c.lib_calls;
         a.traces += c.traces;
-        nt.extend(c.nontrivial);
-        all.extend(c.all_hashes);
+        sd += c.structural_distinct;
+        sn += c.structural_nontrivial;
+        nts.push(c.nontrivial);
+        alls.push(c.all_hashes);
         out.extend(c.outcomes);
         for (k, f) in c.findings {
             match a.findings.get_mut(&k) {
@@ -256,12 +310,8 @@ pub fn merge(ctxs: Vec<Ctx>) -> Agg {
             *a.extra.entry(k).or_insert(0) += v;
         }
     }
-    nt.sort_unstable();
-    nt.dedup();
-    all.sort_unstable();
-    all.dedup();
-    a.distinct_nontrivial = nt.len() as u64;
-    a.distinct_cases = all.len() as u64;
+    a.distinct_nontrivial = count_distinct(&nts.iter().collect::<Vec<_>>()) + sn;
+    a.distinct_cases = count_distinct(&alls.iter().collect::<Vec<_>>()) + sd;
     a.distinct_outcomes = out.len() as u64;
     a
 }
